@@ -133,7 +133,7 @@ class C13(E1Check):
                 variants.append("before")
             if kind in AFTER_KINDS:
                 variants.append("after")
-            stepkind = kind + (":" + str(detail[0]) if detail and kind in ("write", "seek", "truncate", "readinto", "close", "open") else "")
+            stepkind = kind + (":" + str(detail[0]) if detail and kind in ("write", "seek", "truncate", "readinto", "close", "open", "text-close") else "")
             for when in variants:
                 err = errno.ENOSPC if kind in ("write", "flush", "copy-chunk", "truncate", "open", "copy-open-dst") else errno.EIO
                 counters["evaluations"] += 1
